@@ -44,6 +44,7 @@ type LoopGhost struct {
 }
 
 type LoopSpec struct {
+	Cut        bool     // cut point: the body and what follows are verified once, from the invariants alone
 	Snaps      []string // named snapshots of the heap taken at loop entry
 	Ghosts     []*LoopGhost
 	Lets       []GhostOut
@@ -335,6 +336,8 @@ func (sp *Spec) loadFile(path, prefix string) error {
 				ls.Modifies = append(ls.Modifies, parseList(r3)...)
 			case "snap":
 				ls.Snaps = append(ls.Snaps, strings.Fields(r3)...)
+			case "cut":
+				ls.Cut = true
 			case "ghost":
 				// loop N ghost name type [:= init]
 				name, r4 := splitWord(r3)
